@@ -155,7 +155,11 @@ func (w *World) pullSome(sn *Snap) bool {
 	if q.Q == QGet {
 		return true
 	}
-	want, per := st.eval(q)
+	// the expectation is what the same query answers right now on this snapshot (real vs. real)
+	var want []MObj
+	if !w.guard("C01", q.String(), func() { want, _ = realQuery(tc, sn.txn, q, 0) }) {
+		return false
+	}
 	if len(want) < 2 {
 		return true
 	}
@@ -165,7 +169,6 @@ func (w *World) pullSome(sn *Snap) bool {
 	}
 	next, stop := iter.Pull2(seq)
 	pl := &pulled{ti: ti, q: q, next: next, stop: stop, expect: want}
-	_ = per
 	k := 1 + c.Choose(len(want)-1)
 	for i := 0; i < k; i++ {
 		o, r, ok := next()
@@ -173,15 +176,11 @@ func (w *World) pullSome(sn *Snap) bool {
 			break
 		}
 		if pl.taken >= len(want) || want[pl.taken].Rev != r || !objEqual(want[pl.taken].O, o) {
-			// may be the per-key listing of an LPM index: fall back to a full comparison later
-			pl.expect = nil
-			break
+			stop()
+			w.violate("C01", "half-consumed-iterator", "retained %v: %v yields %v@%d at position %d, the same query just answered %s", sn, q, o, r, pl.taken, fmtRes(want))
+			return false
 		}
 		pl.taken++
-	}
-	if pl.expect == nil {
-		stop()
-		return true
 	}
 	sn.pulls = append(sn.pulls, pl)
 	w.probe("iterator-half-consumed")
